@@ -32,8 +32,8 @@ T_NewCid == IsEvent("newcid") /\ ~failed /\ LET r == Rec[l]
   /\ (~conflict /\ r.seq \notin DOMAIN acc /\ Cardinality(usableMin) > 3) => r.result # "ok"   \* ... and then it is due
   /\ r.result = "retired_limit" => Cardinality(known) - Cardinality(usableMin) > 6
   /\ IF r.result = "ok"
-       THEN /\ r.seq \in DOMAIN acc => (acc[r.seq].cid = r.cid /\ acc[r.seq].tok = r.tok)
-            /\ acc' = IF r.seq \in DOMAIN acc THEN acc ELSE acc @@ (r.seq :> [cid |-> r.cid, tok |-> r.tok])
+       THEN /\ (r.seq \in DOMAIN acc /\ r.seq \notin gone) => (acc[r.seq].cid = r.cid /\ acc[r.seq].tok = r.tok)   \* a repeated frame
+            /\ acc' = [k \in DOMAIN acc \cup {r.seq} |-> IF k = r.seq THEN [cid |-> r.cid, tok |-> r.tok] ELSE acc[k]]
             /\ rptMax' = rp
             /\ A \subseteq usableMax /\ Cardinality(A) <= 3
             /\ P!NoUseBelowRpt(A, rp)
